@@ -24,6 +24,7 @@ TECHNIQUE = "who-may-write + polynomial normal forms over call-result symbols fr
 def r2_1(ctx):
     ctx.begin("R2.1", "writers of remaining_work_amount", floor=4)
     allowed = {(TASK, "__init__"), (TASK, "initialize"), (TASK, "perform"), (PROJECT, "append_project_log_from_simple_json")}
+    allowed_q = with_private_pieces(ctx, {f"{c}.{n}" for c, n in allowed})   # (private pieces of the allowed writers count as them)
     reach = {id(g.node) for g in sim_reach(ctx, precise=not ctx.thorough)}
     fin = set()
     wf_check = ctx.repo.method(WORKFLOW, "check_state")
@@ -34,7 +35,7 @@ def r2_1(ctx):
         for ef in ctx.eff.of(g):
             if ef.kind in ("store", "mut", "del") and ef.attr == "remaining_work_amount":
                 ctx.instance(construct(g, "writer"), sample={"loc": ef.loc, "stmt": ast.unparse(ef.node)[:70]})
-                if (g.cls, g.name) in allowed:
+                if (g.cls, g.name) in allowed or g.qualname in allowed_q:
                     continue
                 if (g.cls, g.name) in fin:
                     v = ef.value
@@ -216,17 +217,20 @@ def r2_6(ctx):
         if v != exp:
             ctx.violation(construct(g, "initial-remaining"), g.loc(), f"initialize() sets remaining work to `{v!r}` (expected `{exp!r}`)")
     c = ctx.repo.method(TASK, "__init__")
-    # constructor: textual normal form of the default branch
-    ok = False
-    for n in ast.walk(c.node):
-        if isinstance(n, ast.Assign) and any(isinstance(t, ast.Attribute) and t.attr == "remaining_work_amount" for t in n.targets) and not isinstance(n.value, ast.Name):
-            from ..exprnorm import normalise
-            p = normalise(n.value)
-            if p == normalise(ast.parse("self.default_work_amount - self.default_work_amount*self.default_progress", mode="eval").body):
-                ok = True
-    ctx.instance(construct(c, "initial-remaining"))
-    if not ok:
-        ctx.violation(construct(c, "initial-remaining"), c.loc(), "BaseTask.__init__ does not default remaining work to default_work_amount*(1-default_progress)")
+    # constructor: interpreted with no saved remaining work given and symbolic work amount / progress
+    dw, dp = Poly.sym("DW"), Poly.sym("DP")
+    want = dw - dw * dp
+    Ic = mk_interp(ctx)
+    got = set()
+    for st, ex in Ic.run_function(c, bind={"__defaults__": True, "remaining_work_amount": Const(None), "default_work_amount": dw, "default_progress": dp}):
+        if ex is not None and ex[0] == "raise":
+            continue
+        v = st.heap.get(("self", "remaining_work_amount"))
+        got.add(repr(v))
+        ctx.instance(construct(c, "initial-remaining"), sample={"value": repr(v)})
+        if not (isinstance(v, Poly) and v == want):
+            ctx.violation(construct(c, "initial-remaining"), c.loc(), f"BaseTask.__init__ without a saved remaining work sets it to `{v!r}` (expected default_work_amount*(1-default_progress) = `{want!r}`)")
+    ctx.require(got, "BaseTask.__init__ has no normal path")
     ctx.end()
 
 
